@@ -597,10 +597,13 @@ def run(prop, tier, replay=None):
         out.notes["deep_behaviours"] = len(deep)
         behs = behs + deep
         rs = renderings(sd, 3)
+        # length units are arbitrary: replication must not depend on the magnitude of the numbers (powers of two keep the
+        # rendering exact)
+        extreme = [Rendering("tiny", 2.0 ** -30), Rendering("huge", 2.0 ** 20)]
         cases = []
-        for b in behs:
+        for bi, b in enumerate(behs):
             nvar = 4 if b[-1]["op"] == "Delete" and len(_vals(b[-1]["keys"])) > 1 else (2 if b[-1]["op"] == "Pop" else 1)
-            for ri, R in enumerate(rs):
+            for ri, R in enumerate(rs + (extreme if prop == "C12" and bi % 3 == 0 else [])):
                 for v in range(nvar):
                     if ri > 0 and v > 0 and (ri + v) % 2 == 0:
                         continue
